@@ -353,9 +353,84 @@ fn through_codecs(seed: u64, idx: u64, target: &Addr, rep: &mut Report) {
     }
 }
 
+/// (d) the datagram side of "the client accepts": what `Socks5UdpCodec` makes of a local SOCKS5-UDP datagram is what the
+/// client's relay sends on. Names of every length 1..=255: identical address, payload exactly the rest. A name of length
+/// 0 cannot be represented: the datagram must be refused (an item with an empty name would be handed to the outbound codecs).
+/// And the way back: every address the codec encodes as a reply label decodes to itself, leaving exactly the payload.
+fn socks5_udp_datagrams(seed: u64, rep: &mut Report) {
+    use octo_squirrel::protocol::socks5::codec::Socks5UdpCodec;
+    use tokio_util::codec::{Decoder, Encoder};
+    let mut rng = Rng::derive(seed, 0xC14D, 0);
+    for alphabet in 0..3usize {
+        for len in 0..=255usize {
+            for (pi, payload) in [Vec::new(), vec![0x42u8], rng.bytes(300)].into_iter().enumerate() {
+                let host = name(alphabet, len, &mut rng);
+                let port = *rng.pick(&[0u16, 1, 53, 443, 65535]);
+                let mut d = vec![0u8, 0, 0, 3, len as u8];
+                d.extend_from_slice(&host);
+                d.extend_from_slice(&port.to_be_bytes());
+                d.extend_from_slice(&payload);
+                let mut buf = BytesMut::from(&d[..]);
+                rep.evaluations += 1;
+                rep.mon("socks5_udp_datagrams_decoded", 1);
+                let r = panicmon::catch(|| Socks5UdpCodec.decode(&mut buf));
+                let sig = |sym: &str| format!("C14|socks5-udp|alphabet={alphabet}|{sym}");
+                let w = json!({"seed": seed, "name_len": len, "alphabet": alphabet, "payload_len": payload.len(), "datagram": hex_short(&d)});
+                match r {
+                    Err(p) => rep.violation(sig(&format!("panic:{}", p.signature())), format!("Socks5UdpCodec panicked on a datagram naming a {len}-byte host"), w),
+                    Ok(Ok(Some((content, addr)))) => {
+                        let got = from_address(&addr);
+                        if len == 0 {
+                            rep.violation(sig("empty-name-accepted"), format!("a local datagram that names an EMPTY host is accepted (as {}) and would be sent on", got.describe()), w);
+                        } else if std::str::from_utf8(&host).is_err() {
+                            // not a name at all: refusing would have been right; accepted it must at least be unchanged
+                            if let Addr::Domain(h, p) = &got {
+                                if h != &host || *p != port {
+                                    rep.violation(sig("non-utf8-name-altered"), "a name that is not UTF-8 came out altered".to_string(), w);
+                                }
+                            }
+                        } else if got != Addr::Domain(host.clone(), port) {
+                            rep.violation(sig("address-differs"), format!("datagram for a {len}-byte name decoded as {}", got.describe()), w);
+                        } else if content[..] != payload[..] {
+                            rep.violation(sig("payload-differs"), format!("{} payload bytes came out as {}", payload.len(), content.len()), w);
+                        } else if pi == 0 && alphabet == 0 {
+                            rep.distinct.insert(crate::report::hash_of(&("udp", len)));
+                        }
+                    }
+                    Ok(Ok(None)) | Ok(Err(_)) => {
+                        if len > 0 && std::str::from_utf8(&host).is_ok() {
+                            rep.violation(sig("representable-name-refused"), format!("a local datagram naming a representable {len}-byte host is refused"), w);
+                        } else {
+                            rep.mon("socks5_udp_unrepresentable_refused", 1);
+                        }
+                    }
+                }
+            }
+        }
+    }
+    // reply labels: encode (payload, address) and read it back with the reference decoder
+    for k in 0..2000u64 {
+        let a = gen::random_addr(&mut rng);
+        let n = *rng.pick(&[0usize, 1, 100, 1400]);
+        let payload = rng.bytes(n);
+        let mut dst = BytesMut::new();
+        rep.evaluations += 1;
+        if panicmon::catch(|| Socks5UdpCodec.encode((BytesMut::from(&payload[..]), to_address(&a)), &mut dst)).map(|r| r.is_err()).unwrap_or(true) {
+            rep.violation("C14|socks5-udp|reply-label|encode-fails".to_string(), format!("encoding a reply labelled {} fails", a.describe()), json!({"seed": seed, "k": k}));
+            continue;
+        }
+        rep.mon("socks5_udp_reply_labels_encoded", 1);
+        let ok = dst.len() >= 3 && dst[..3] == [0, 0, 0] && matches!(refimpl::addr::socks_decode(&dst[3..]), Ok((b, used)) if b == a && dst[3 + used..] == payload[..]);
+        if !ok {
+            rep.violation("C14|socks5-udp|reply-label|does-not-read-back".to_string(), format!("a reply labelled {} does not read back as that address followed by exactly the payload", a.describe()), json!({"seed": seed, "k": k, "wire": hex_short(&dst)}));
+        }
+    }
+}
+
 pub fn run(a: &Args) -> Report {
     let mut rep = Report::new();
     roundtrips(a.seed, &mut rep, a.thorough);
+    socks5_udp_datagrams(a.seed, &mut rep);
     let seed = a.seed;
     // every length 0..=1024 x 3 alphabets x 3 handshake kinds
     let step = if a.scale < 1.0 { 37 } else { 1 };
